@@ -70,13 +70,21 @@ class Crate:
 
     def module_params_of(self, key):
         for mod, m in self.spec.get("modules", {}).items():
-            if key in m.get("functions", {}): return m.get("params", [])
+            if key in m.get("functions", {}):
+                fo = m["functions"][key]
+                if "params" in fo: return fo["params"]   # per-function override (a function that needs fewer)
+                return m.get("params", [])
         return []
 
     def extern(self, key):
         return self.spec.get("externs", {}).get(key)
 
     def lean_fn_name(self, key):
+        if "::" in key:
+            t, f = key.split("::")[0], key.split("::")[-1]
+            st = self.structs.get(t)
+            if st is not None and any(fn == f for fn, _ in st["fields"]):
+                return f"Gen.{t}.{f}_fn"   # a method named like a field of its struct
         return "Gen." + key.replace("::", ".")
 
 
@@ -203,6 +211,7 @@ class Emitter:
                 a = args[0]
                 if a["k"] == "tpath" and a["segs"][-1][0] == "u8": return "Bytes"
                 return f"(List {self.lean_type(a)})"
+            if name == "HashMap": return f"(List ({self.lean_type(args[0])} × {self.lean_type(args[1])}))"
             if name == "Option": return f"(Option {self.lean_type(args[0])})"
             if name == "Box": return self.lean_type(args[0])
             if name == "Result": return self.lean_type(args[0]) if args else "Unit"
@@ -245,7 +254,10 @@ class Emitter:
             return None
         if k == "mcall":
             key = self.resolve_method(e)
-            if key and key in self.c.fns: return self.strip_ref(self.c.fns[key]["ret"])
+            if key and key in self.c.fns:
+                rt = self.c.fns[key]["ret"]
+                if "::" in key: rt = subst_self(rt, key.split("::")[0].split("@")[0])
+                return self.strip_ref(rt)
             ext = self.c.extern(key) if key else None
             if ext and ext.get("ret_rust"):
                 return N("tpath", 0, segs=[(ext["ret_rust"], [])])
@@ -260,9 +272,11 @@ class Emitter:
             key = self.resolve_path_fn(e["f"])
             if key and key in self.c.fns:
                 rt = self.c.fns[key]["ret"]
-                if rt and rt["k"] == "tpath" and rt["segs"][-1][0] == "Self":
-                    return N("tpath", 0, segs=[(key.split("::")[0], [])])
+                if "::" in key: rt = subst_self(rt, key.split("::")[0])
                 return self.strip_ref(rt)
+            ext = self.c.extern(key) if key else None
+            if ext and ext.get("ret_rust"):
+                return N("tpath", 0, segs=[(ext["ret_rust"], [])])
             return None
         if k == "struct":
             return N("tpath", 0, segs=[(e["path"][-1] if e["path"][-1] != "Self" else self.self_type, [])])
@@ -392,6 +406,9 @@ class Emitter:
 
     def v_path(self, e):
         segs = e["segs"]
+        ce = self.c.spec.get("consts_extern", {})
+        if segs[-1] in ce and self.lookup(segs[-1]) is None:
+            return [], ce[segs[-1]]
         if len(segs) == 1:
             n = segs[0]
             if n == "self" or self.lookup(n) is not None:
@@ -495,7 +512,11 @@ class Emitter:
         if op == "%":
             if re.fullmatch(r"[1-9]\d*", b): return p1 + p2, f"({a} % {b})"
             return p1 + p2, f"(← Rs.rem {a} {b} {self.site(line, 'rem')})"
-        if op in ("+", "*"): return p1 + p2, f"({a} {op} {b})"
+        if op in ("+", "*"):
+            if self.opts.get("checked_u64"):
+                fn = "Rs.addU64" if op == "+" else "Rs.mulU64"
+                return p1 + p2, f"(← {fn} {a} {b} {self.site(line, 'add' if op == '+' else 'mul')})"
+            return p1 + p2, f"({a} {op} {b})"
         if op == "&": return p1 + p2, f"({a} &&& {b})"
         if op == "|": return p1 + p2, f"({a} ||| {b})"
         if op == "^": return p1 + p2, f"({a} ^^^ {b})"
@@ -515,6 +536,10 @@ class Emitter:
         p, t = self.val(e["e"])
         i = e["i"]
         line = e["line"]
+        ty = self.strip_ref(self.typeof(e["e"]))
+        if ty is not None and ty["k"] == "tpath" and ty["segs"][-1][0] == "HashMap":
+            p2, kt = self.val(i)
+            return p + p2, f"(← Rs.mapIdx {self.atom(t)} {self.atom(kt)} {self.site(line, 'map-index')})"
         if i["k"] == "range":
             if i["incl"]: raise Unsupported("inclusive slice")
             if i["lo"] is None and i["hi"] is None: return p, t
@@ -703,10 +728,20 @@ class Emitter:
             use_recv = recv is not None and "{self}" in tmpl
             pre, ts = self.vals(([recv] if use_recv else []) + list(args))
             term = tmpl
+            ts_self = None
             if use_recv:
+                ts_self = ts[0]
                 term = term.replace("{self}", self.atom(ts[0])); ts = ts[1:]
             for i, t in enumerate(ts):
                 term = term.replace("{" + str(i) + "}", self.atom(t))
+            if ext.get("mutates"):
+                # extern `&mut self` method: the template is the new value of the receiver; `res` its result
+                rest = ext.get("res")
+                if rest is not None:
+                    rest = rest.replace("{self}", self.atom(ts_self)) if use_recv else rest
+                    for i, t in enumerate(ts):
+                        rest = rest.replace("{" + str(i) + "}", self.atom(t))
+                return pre, "PURE:" + term, ["MUTSELF", recv, rest]
             if not ext.get("monadic", ext.get("result", False)):
                 return pre, "PURE:" + term, []
             return pre, term, []
@@ -760,6 +795,13 @@ class Emitter:
 
     def finish_call(self, pre, term, wb, e, mode):
         """bind a call; handle write-backs. mode 'value': returns (pre, pure term of the result)"""
+        if wb and wb[0] == "MUTSELF":
+            pre = list(pre)
+            resv = "()"
+            if len(wb) > 2 and wb[2] is not None:
+                resv = self.fresh("r")
+                pre.append(f"let {resv} := {wb[2]}")
+            return pre + self.assign_place(wb[1], term[5:], e["line"]), resv
         if term.startswith("PURE:"):
             return pre, term[5:]
         if not wb:
@@ -787,7 +829,31 @@ class Emitter:
         recv = e["recv"]
         args = e["args"]
         # Result / Option adaptors on calls
+        if name in ("unwrap", "expect") and recv["k"] == "mcall" and recv["name"] in ("write_u16", "write_u32", "write_u64", "write_all") \
+                and self.resolve_method(recv) is None:
+            tgt = recv["recv"]
+            t0 = tgt
+            while t0["k"] == "paren": t0 = t0["e"]
+            into_slice = t0["k"] == "cast" and t0["t"]["k"] == "tref" and t0["t"]["t"]["k"] == "tslice"
+            pre, cur = self.val(tgt)
+            p2, ts = self.vals(recv["args"])
+            enc = {"write_u16": "le16 ", "write_u32": "le32 ", "write_u64": "le64 ", "write_all": ""}[recv["name"]]
+            data = f"({enc}{self.atom(ts[0])})"
+            comp = f"(Rs.sliceWrite {self.atom(cur)} {data})" if into_slice else f"(Res.ok ({self.atom(cur)} ++ {data}))"
+            t = self.fresh()
+            pre = pre + p2 + [f"let {t} ← Rs.unwrapR {comp} {self.site(line, name)}"]
+            return pre + self.assign_place(tgt, t, line), "()"
         if name in ("unwrap", "expect"):
+            r0 = recv
+            while r0["k"] == "paren": r0 = r0["e"]
+            if r0["k"] in ("call", "mcall") and self.is_result_expr(r0) and not (r0["k"] == "mcall" and (r0["name"] in MUT_BUILTINS or r0["name"] in ("map_err", "or_else")) and self.resolve_method(r0) is None) \
+                    and not (r0["k"] == "call" and r0["f"]["segs"][-1] in ("Ok", "Err")):
+                snap = self.snapshot()
+                pre, term, wb = self.call_term(r0)
+                if not (wb and wb[0] != "MUTSELF"): self.restore(snap)
+                if wb and wb[0] != "MUTSELF":
+                    # `x.f(&mut ..).unwrap()`: Err becomes a panic, then the updated values are written back
+                    return self.finish_call(pre, f"(Rs.unwrapR {term} {self.site(line, name)})", wb, r0, mode="value")
             if self.is_result_expr(recv):
                 pre, c = self.comp_with_writeback(recv)
                 return pre, f"(← Rs.unwrapR {self.atom(c)} {self.site(line, name)})"
@@ -801,6 +867,14 @@ class Emitter:
             pre, c = self.comp_with_writeback(recv)
             fn = {"is_err": "Rs.isErr", "is_ok": "Rs.isOk", "ok": "Rs.okOpt"}[name]
             return pre, f"(← {fn} {self.atom(c)})"
+        if name == "map" and len(args) == 1 and args[0]["k"] == "closure" and self.is_option(self.strip_ref(self.typeof(recv))):
+            p, t = self.val(recv)
+            cl = args[0]
+            self.push_scope()
+            ps = [self.pat_atom(q, True) for q, _ in cl["params"]]
+            body = self.tail_value(cl["body"])
+            self.pop_scope()
+            return p, f"(← Rs.optMapM {self.atom(t)} (fun {' '.join(ps)} => do\n" + "\n".join(indent(body, 2)) + "))"
         if name in MUT_BUILTINS:
             return self.mut_builtin(e)
         if name in BUILTIN_METHODS:
@@ -817,6 +891,12 @@ class Emitter:
     def comp_with_writeback(self, e):
         """computation term for a Result expression; mutating calls whose Result is inspected are only allowed
         for prelude builtins that return the new state inside the ok value"""
+        if e["k"] == "mcall" and e["name"] in ("read_u64", "read_u32", "read_u16") and self.resolve_method(e) is None \
+                and e["recv"]["k"] == "mcall" and e["recv"]["name"] in ("as_slice", "as_ref"):
+            # byteorder read on a temporary `&[u8]`: the first 8 / 4 / 2 bytes, Err when shorter
+            p, t = self.val(e["recv"])
+            fn = {"read_u64": "Rs.sliceReadU64", "read_u32": "Rs.sliceReadU32", "read_u16": "Rs.sliceReadU16"}[e["name"]]
+            return p, f"({fn} {self.atom(t)})"
         if e["k"] == "mcall" and e["name"] in MUT_BUILTINS and self.resolve_method(e) is None:
             raise Unsupported(f"{self.file}:{e['line']}: Result of mutating builtin .{e['name']}() is inspected")
         pre, term, wb = self.call_term(e) if e["k"] in ("call", "mcall") and not (e["k"] == "call" and e["f"]["segs"][-1] in ("Ok", "Err")) else (*self.comp(e), [])
@@ -924,6 +1004,17 @@ class Emitter:
             if pat["k"] != "pident": raise Unsupported("uninitialised pattern let")
             self.declare(pat["name"], mut=True, ty=s["ty"])
             return [f"let mut {lname(pat['name'])} := default"]
+        if s["init"]["k"] == "block" and pat["k"] == "pident" and s["init"]["tail"] is not None:
+            # block expression: its statements are inlined (they may update outer variables); names it declares
+            # must not clash with names in scope
+            blk = s["init"]
+            lines = []
+            for st in blk["stmts"]:
+                if st["k"] == "let" and st["pat"]["k"] == "pident" and self.lookup(st["pat"]["name"]) is not None:
+                    raise Unsupported(f"{self.file}:{st['line']}: block expression re-declares {st['pat']['name']}")
+                lines += self.stmt(st)
+            inner = dict(s); inner["init"] = blk["tail"]
+            return lines + self.stmt_let(inner)
         pre, t = self.val(s["init"])
         ty = s["ty"] if s["ty"] is not None else self.typeof(s["init"])
         if pat["k"] == "pident":
@@ -1492,6 +1583,20 @@ class Emitter:
         return [src, head] + indent(body, 2)
 
 
+def subst_self(ty, tname):
+    if ty is None: return None
+    if isinstance(ty, dict):
+        if ty.get("k") == "tpath" and ty["segs"][-1][0] == "Self" and not ty["segs"][-1][1]:
+            return N("tpath", ty.get("line", 0), segs=[(tname, [])])
+        out = {}
+        for k2, v in ty.items():
+            out[k2] = subst_self(v, tname) if isinstance(v, (dict, list, tuple)) else v
+        return out
+    if isinstance(ty, list): return [subst_self(x, tname) for x in ty]
+    if isinstance(ty, tuple): return tuple(subst_self(x, tname) if isinstance(x, (dict, list, tuple)) else x for x in ty)
+    return ty
+
+
 def assigned_in(lines, name):
     pat = re.compile(r"^\s*" + re.escape(name) + r" := ")
     for ln in lines:
@@ -1546,7 +1651,7 @@ BUILTIN_METHODS = {
     "rev": "{self}.reverse", "sum": "{self}.sum", "map": _closure_map,
     "is_some": "{self}.isSome", "is_none": "{self}.isNone", "unwrap_or": "({self}.getD {0})",
     "contains": "({self}.contains {0})", "min": "(min {self} {0})", "max": "(max {self} {0})",
-    "position": "{self}.pos", "finish": "(H {self})", "get": "{self}[{0}]?", "concat": "{self}.flatten", "starts_with": "({0}.isPrefixOf {self})",
+    "position": "{self}.pos", "finish": "(H {self})", "as_secs": "{self}.secs", "subsec_nanos": "{self}.nanos", "get": "{self}[{0}]?", "concat": "{self}.flatten", "starts_with": "({0}.isPrefixOf {self})",
 }
 
 
